@@ -201,7 +201,7 @@ def blocksW (version : Seq) (alphabet maxname len : Nat) (rows : List XRow) : Na
 def write (version : Seq) (alphabet : Nat) (rows : List XRow) : Seq :=
   let len := match rows with | r :: _ => r.2.length | [] => 0
   let maxname := rows.foldl (fun m r => max m r.1.length) 0
-  "CLUSTAL W (goalign version ".toUTF8.toList ++ version ++ ")\n\n".toUTF8.toList ++
+  ([67, 76, 85, 83, 84, 65, 76, 32, 87, 32, 40, 103, 111, 97, 108, 105, 103, 110, 32, 118, 101, 114, 115, 105, 111, 110, 32] : Seq) ++ version ++ ([41, 10, 10] : Seq) ++
     blocksW version alphabet maxname len rows (len + 1) 0
 
 end Gv.Model.Fmt.Clustal
